@@ -595,6 +595,51 @@ def monitor(case, impl):
     return fails, tags, o
 
 
+# ------------------------------------------------------------------ translator: how the entry points treat the term argument
+_NORMS = {}
+
+
+def extract_norms(repo=None):
+    """for each entry point, the treatments applied to its term argument before it is handed on, read off the source:
+    `p = [p]` under `isinstance(p,str)` -> wrapStr, `list(p)` / `tuple(p)` anywhere -> listOf / tupleOf, nothing -> asIs.
+    Raises when the parameter is rebound in a way this reader does not know."""
+    import ast
+    repo = repo or os.environ.get("COBA_REPO", "/repo")
+    if repo in _NORMS:
+        return _NORMS[repo]
+    targets = {"env": ("coba/environments/core.py", "Environments", "from_linear_synthetic", "reward_features"),
+               "synthetic": ("coba/environments/synthetics.py", "LinearSyntheticSimulation", "__init__", "reward_features"),
+               "linucb": ("coba/learners/linucb.py", "LinUCBLearner", "__init__", "features"),
+               "lints": ("coba/learners/lints.py", "LinTSLearner", "__init__", "features")}
+    out = {}
+    for key, (rel, cls, fn, par) in targets.items():
+        tree = ast.parse(open(os.path.join(repo, rel), encoding="utf-8").read())
+        func = None
+        for node in ast.walk(tree):
+            if isinstance(node, ast.ClassDef) and node.name == cls:
+                for f in node.body:
+                    if isinstance(f, ast.FunctionDef) and f.name == fn:
+                        func = f
+        if func is None:
+            raise LookupError("%s.%s not found in %s" % (cls, fn, rel))
+        found = []
+        is_p = lambda n: isinstance(n, ast.Name) and n.id == par
+        for node in ast.walk(func):
+            if isinstance(node, ast.Assign) and any(is_p(t) for t in node.targets):
+                v = node.value
+                if isinstance(v, ast.List) and len(v.elts) == 1 and is_p(v.elts[0]):
+                    found.append((node.lineno, "wrapStr"))
+                elif isinstance(v, ast.Call) and isinstance(v.func, ast.Name) and v.func.id in ("list", "tuple") and len(v.args) == 1 and is_p(v.args[0]):
+                    pass        # counted below as a call
+                else:
+                    raise ValueError("%s.%s rebinds %s in an unknown way (line %d)" % (cls, fn, par, node.lineno))
+            if isinstance(node, ast.Call) and isinstance(node.func, ast.Name) and node.func.id in ("list", "tuple") and len(node.args) == 1 and is_p(node.args[0]):
+                found.append((node.lineno, "listOf" if node.func.id == "list" else "tupleOf"))
+        out[key] = [n for _, n in sorted(found)] or ["asIs"]
+    _NORMS[repo] = out
+    return out
+
+
 # ------------------------------------------------------------------ the callers (linucb.py, lints.py, synthetics.py)
 def py_to_val(x):
     """a Python argument a caller passed to encode, as a case value"""
@@ -760,14 +805,23 @@ class C20(Property):
             "Environments.from_linear_synthetic (one or several seeds) - with the term argument in every accepted shape (list, tuple, a bare "
             "str = ONE term, numeric constants, defaults), random contexts and "
             "feature counts and compare the term list they hand to the encoder with learnerTerms / syntheticTerms, and judge every encode "
-            "call they make; dense lengths are checked against the binomial formula independently of the values; non-trivial = at least one term and at least 3 expected entries; distinct by canonical JSON of the case")
+            "call they make; 3% of the cases check the float multiplication law itself on random doubles with Fractions; learner cases with an empty "
+            "context are re-run under several PYTHONHASHSEEDs; the model's `normalise` (argument shapes) is compared with the spied encoder "
+            "terms; dense lengths are checked against the binomial formula independently of the values; non-trivial = at least one term and at least 3 expected entries; distinct by canonical JSON of the case")
     trusted_base = [
         "products are compared exactly (ints, or dyadic floats small enough that every float product is exact); cases with arbitrary doubles "
         "are compared at the relative tolerance (1+2^-53)^(d-1)-1 of theorem encode_float_model (standard model: no under/overflow, "
         "round-to-nearest IEEE doubles satisfy FloatMul 2^-53 - assumed, magnitudes kept within 1e-70..1e60)",
         "Python dict/OrderedDict insertion semantics are modelled by an association list (dictSet/dictOf)",
         "str() of int keys and indices equals Lean's toString on Int/Nat",
-        "Python's set order in the learners' rewritten term list is not modelled: the list is compared as a set",
+        "Python's set order in the learners' rewritten term list is not modelled: the list is compared as a set; its dependence on "
+        "PYTHONHASHSEED is observed by running the real learner in sub-processes (finding C20-F6 for LinTS)",
+        "the float theorems rest on ONE assumption about IEEE doubles - FloatMul 2^-53 (relative error <= 2^-53 per multiplication, x*1 = x) "
+        "and ExactOn (a representable product is returned exactly) - checked on CPython's doubles with exact Fractions by the "
+        "`floatmul` stream of the correspondence (3% of the cases); on the dyadic value pools no assumption about rounding is needed "
+        "(encode_float_exact_dyadic)",
+        "the treatments of the term argument (asIs / wrapStr / listOf / tupleOf) are read off the entry points' source by a small AST "
+        "reader; an unknown rebinding makes it fall back to the last known treatments and say so",
         "the callers are run with a recording subclass substituted for the module-level name InteractionsEncoder and, where numpy is "
         "not installed, a stub numpy module (only the encoder calls made before the first numpy use are observed)",
     ]
@@ -834,10 +888,10 @@ class C20(Property):
                     "import CobaVerif.Model.C20\nnamespace Coba.Generated.C20\nopen Coba.C20\n"
                     "def linucbFeatures : List Inter := [%s]\ndef lintsFeatures : List Inter := [%s]\n"
                     "def syntheticFeatures : List (List Char) := [%s]\ndef offlineFeatures : List Inter := [%s]\n"
-                    "def extracted : Bool := true\nend Coba.Generated.C20\n"
+                    "def extracted : Bool := true\n%send Coba.Generated.C20\n"
                     % (", ".join(lean_inter(t) for t in vals["linucb"]), ", ".join(lean_inter(t) for t in vals["lints"]),
                        ", ".join("[%s]" % ", ".join("'%s'" % ch for ch in t) for t in vals["synthetic"] if lean_inter(t)),
-                       ", ".join(lean_inter(t) for t in vals["offline"])))
+                       ", ".join(lean_inter(t) for t in vals["offline"]), "@@NORMS@@"))
             notes.append("caller defaults extracted: linucb %r, lints %r, synthetic %r, offline %r" % (vals["linucb"], vals["lints"], vals["synthetic"], vals["offline"]))
         except Exception as e:
             ok = False
@@ -847,8 +901,20 @@ class C20(Property):
                     "def linucbFeatures : List Inter := [.num (1), .term ['a'], .term ['a', 'x']]\n"
                     "def lintsFeatures : List Inter := [.num (1), .term ['a'], .term ['a', 'x']]\n"
                     "def syntheticFeatures : List (List Char) := [['a'], ['x', 'a']]\ndef offlineFeatures : List Inter := [.term ['x']]\n"
-                    "def extracted : Bool := false\nend Coba.Generated.C20\n" % str(e).replace("\n", " ")[:150])
+                    "def extracted : Bool := false\n@@NORMS@@end Coba.Generated.C20\n" % str(e).replace("\n", " ")[:150])
             notes.append("caller defaults could NOT be extracted (%s); callers_wellformed is about the last known defaults; the caller cases of the correspondence still run" % e)
+        try:
+            nm = extract_norms(repo)
+            lst = lambda ns: "[%s]" % ", ".join("." + n for n in ns)
+            norms = ("def envNorms : List Norm := %s\ndef syntheticNorms : List Norm := %s\ndef linucbNorms : List Norm := %s\n"
+                     "def lintsNorms : List Norm := %s\ndef shapesExtracted : Bool := true\n" % (lst(nm["env"]), lst(nm["synthetic"]), lst(nm["linucb"]), lst(nm["lints"])))
+            notes.append("argument treatments extracted: from_linear_synthetic %s, LinearSyntheticSimulation %s, LinUCB %s, LinTS %s" % (nm["env"], nm["synthetic"], nm["linucb"], nm["lints"]))
+        except Exception as e:
+            norms = ("-- the treatments of the term argument could not be read off the source (%s); last known ones:\n"
+                     "def envNorms : List Norm := [.asIs]\ndef syntheticNorms : List Norm := [.wrapStr]\ndef linucbNorms : List Norm := [.asIs]\n"
+                     "def lintsNorms : List Norm := [.asIs]\ndef shapesExtracted : Bool := false\n" % str(e).replace("\n", " ")[:150])
+            notes.append("argument treatments could NOT be extracted (%s); synthetic_entry_shapes / learner_entry_shapes are about the last known ones; the caller cases still spy the real encoder" % e)
+        body = body.replace("@@NORMS@@", norms)
         path = os.path.join(lean.LEAN_DIR, "CobaVerif", "Generated", "C20Callers.lean")
         old = open(path, encoding="utf-8").read() if os.path.exists(path) else None
         if old != body:
@@ -1000,11 +1066,16 @@ class C20(Property):
         ctx = W(rng, [({"k": "none"}, 4), ({"k": "dense", "v": [], "wrap": "list"}, 2), (P(rng.randint(1, 3), 0), 6), ({"k": "scalar", "v": {"n": [7, 1]}}, 1)])
         na = rng.randint(1, 3)
         acts = [{"k": "dense", "v": [{"n": [PRIMES[4 + i * 3 + j], 1]} for j in range(na)], "wrap": rng.choice(["list", "tuple"])} for i in range(2)]
-        return {"caller": {"kind": kind, "features": feats, "shape": rng.choice(["list", "list", "tuple"]), "context": ctx, "actions": acts}}
+        c = {"kind": kind, "features": feats, "shape": rng.choice(["list", "list", "tuple"]), "context": ctx, "actions": acts}
+        if ctx["k"] == "none" and rng.chance(0.3):
+            c["hashseeds"] = [0, 1, 2, 3]
+        return {"caller": c}
 
     def generate(self, rng, tier, focus=False):
         if not focus and rng.chance(0.06):
             return self.gen_caller(rng)
+        if not focus and rng.chance(0.03):
+            return self.gen_floatmul(rng)
         case = self.gen_call(rng, tier, focus)
         self.subclass_strings(rng, case["ns"])
         if rng.chance(0.45 if not focus else 0.6):
@@ -1263,6 +1334,9 @@ class C20(Property):
             {"caller": {"kind": "synthetic", "features": None, "nctx": 2, "nact": 2}},
             {"caller": {"kind": "synthetic", "features": None, "nctx": 0, "nact": 2}},
             {"caller": {"kind": "synthetic", "features": None, "nctx": 2, "nact": 0}},
+            # the learners' list(set(...)) for an empty context across PYTHONHASHSEED (phase 3)
+            {"caller": {"kind": "lints", "features": [one, "a", "ax", "xa", "aa", "aaa"], "shape": "list", "context": {"k": "none"}, "actions": [P(5, 7), P(11, 13)], "hashseeds": [0, 1, 2, 3, 4, 5]}},
+            {"caller": {"kind": "linucb", "features": [one, "a", "ax", "xa", "aa", "aaa"], "shape": "list", "context": {"k": "none"}, "actions": [P(5, 7), P(11, 13)], "hashseeds": [0, 1, 2, 3, 4, 5]}},
             # every accepted shape of the term argument through the public entry points (seeded round c20d: d-m1)
             {"caller": {"kind": "synthetic_env", "features": ["xa"], "shape": "str", "nctx": 2, "nact": 3, "seed": 3}},
             {"caller": {"kind": "synthetic_env", "features": ["xxa"], "shape": "str", "nctx": 2, "nact": 2, "seeds": [1, 2]}},
@@ -1293,6 +1367,8 @@ class C20(Property):
         arguments) only, so every call is judged on its own, (A)(B)(C), exactly like a single call"""
         if "caller" in case:
             return self.evaluate_caller(case, driver)
+        if "floatmul" in case:
+            return self.evaluate_floatmul(case)
         calls = calls_of(case)
         copies = [c for c in (case.get("copies") or [])][:len(calls)]
         if len(calls) == 1 and not any(copies):
@@ -1342,6 +1418,41 @@ class C20(Property):
             out["tags"].append("hist:dense-and-sparse-calls")
         return out
 
+    def evaluate_floatmul(self, case):
+        """the ONE remaining assumption of the float theorems, checked on CPython's doubles with exact Fractions:
+        fl(a*b) = a*b*(1+eps), |eps| <= 2^-53 (FloatMul), a*1 = a, and fl(a*b) = a*b whenever a*b is a double (ExactOn)"""
+        fails, tags = [], ["floatmul"]
+        xs = [a / b for a, b in case["floatmul"]]
+        acc = xs[0]
+        for y in xs[1:]:
+            exact = Fraction(acc) * Fraction(y)
+            got = acc * y
+            if not math.isfinite(got) or (exact != 0 and abs(exact) < Fraction(1, 2 ** 1000)):
+                tags.append("floatmul:out-of-range")
+                break
+            if abs(Fraction(got) - exact) > U53 * abs(exact):
+                fails.append(F("C", "float law: %r * %r = %r, exact %s: relative error above 2^-53" % (acc, y, got, exact), "C:floatmul-law"))
+            m = exact.numerator
+            den = exact.denominator
+            if den & (den - 1) == 0 and abs(m) <= 2 ** 53:
+                tags.append("floatmul:representable")
+                if Fraction(got) != exact:
+                    fails.append(F("C", "float law: %r * %r = %r although the exact product %s is a double" % (acc, y, got, exact), "C:floatmul-exact"))
+            if acc * 1 != acc or 1 * acc != acc:
+                fails.append(F("C", "float law: %r * 1 != itself" % acc, "C:floatmul-one"))
+            acc = got
+        return {"fails": fails, "tags": tags, "nontrivial": len(xs) >= 2, "impl": repr(acc), "model": None}
+
+    def gen_floatmul(self, rng):
+        xs = []
+        for _ in range(rng.randint(2, 8)):
+            if rng.chance(0.4):     # dyadic with few bits: products stay representable for a while
+                x = rng.randint(-4095, 4095) / 2 ** rng.randint(0, 12)
+            else:
+                x = (rng.randint(1, 2 ** 53) / 2 ** 53) * 10.0 ** rng.randint(-6, 6) * rng.choice([1, -1])
+            xs.append(list(float(x).as_integer_ratio()))
+        return {"floatmul": xs}
+
     def evaluate_caller(self, case, driver):
         """the real LinUCB / LinTS / LinearSyntheticSimulation code builds a term list and calls encode: (A) the list
         equals the model's `learnerTerms` / `syntheticTerms`; (B) every encode call they made meets the statement"""
@@ -1384,10 +1495,58 @@ class C20(Property):
                 ncalls += 1
                 for f in out["fails"]:
                     fails.append(dict(f, what="inside %s: %s" % (c["kind"], f["what"]), sig="caller:" + f["sig"]))
+        if c.get("hashseeds") and not syn and not has_ctx:
+            # Python's str hashes differ between processes (PYTHONHASHSEED): does the term list a learner builds for an empty
+            # context - and with it the layout of its feature vector - depend on the process?
+            import subprocess
+            import sys
+            from core import lean as _lean
+            code = ("import sys, json, warnings; warnings.filterwarnings('ignore'); sys.path.insert(0, %r); sys.path.insert(0, %r);"
+                    "from props.c20 import run_caller; rec, _ = run_caller(json.loads(sys.stdin.read()));"
+                    "print(json.dumps([str(t) for t in rec[-1]['terms']]))" % (os.environ.get("COBA_REPO", "/repo"), os.path.join(_lean.VERIF, "harness")))
+            orders = {}
+            for k in c["hashseeds"]:
+                pr = subprocess.run([sys.executable, "-W", "ignore", "-c", code], input=json.dumps({kk: vv for kk, vv in c.items() if kk != "hashseeds"}),
+                                    capture_output=True, text=True, timeout=50, env=dict(os.environ, PYTHONHASHSEED=str(k)))
+                if pr.returncode == 0 and pr.stdout.strip():
+                    orders.setdefault(pr.stdout.strip().splitlines()[-1], []).append(k)
+            tags.append("caller:hashseed-orders:%d" % len(orders))
+            if len(orders) > 1:
+                if c["kind"] == "lints":
+                    # LinTS draws its weights coordinate by coordinate from a seeded generator (multivariate_normal), so the
+                    # layout decides which feature gets which draw: predictions of a seeded learner differ between processes
+                    fails.append(F("B", "LinTSLearner(features=%r) with an empty context hands its terms to InteractionsEncoder in an order that depends on "
+                                   "PYTHONHASHSEED (%s): 'terms in the order given' is lost in list(set(...)), and the seeded Thompson draw is assigned "
+                                   "to different features in different processes" % ([t if isinstance(t, str) else num(t) for t in c["features"]],
+                                                                                      "; ".join("%s for seeds %s" % (o, ks) for o, ks in sorted(orders.items()))),
+                                   "learner-term-order-hash-dependent:lints"))
+                else:
+                    tags.append("caller:order-varies(linucb: unobservable, linear_consumer_order_invariant)")
         model = None
         if driver is not None:
             if c.get("features") is None:      # the default term list: the model side is the Generated file (callers_wellformed)
                 return {"fails": fails, "tags": tags, "nontrivial": ncalls > 0, "impl": {"terms": [str(t) for t in eff], "outcome": outcome}, "model": None}
+            # the model's `normalise` with the treatments read off the source against what the real encoder was given
+            try:
+                nm = extract_norms()
+            except Exception:
+                nm = None
+            if nm is not None:
+                shp = c.get("shape", "list")
+                inter = [{"t": t} if isinstance(t, str) else {"n": t["n"]} for t in c["features"]]
+                shape = {"str": c["features"][0]} if (shp == "str" and len(c["features"]) == 1 and isinstance(c["features"][0], str)) else {shp if shp != "str" else "list": inter}
+                chain = (nm["env"] if c["kind"] == "synthetic_env" else []) + (nm["synthetic"] if syn else nm[c["kind"]])
+                sh = driver.ask({"op": "shape", "norms": chain, "shape": shape})
+                got = [t["t"] if "t" in t else Fraction(t["n"][0], t["n"][1]) for t in sh["terms"]]
+                tags.append("shape:" + "+".join(chain))
+                if not syn:
+                    seen_terms = [t if isinstance(t, str) else Fraction(t) for t in rec[0]["terms"]]
+                    if seen_terms != got:
+                        fails.append(F("A", "%s: the encoder was built from %r, the model's normalise(%s) gives %r" % (c["kind"], rec[0]["terms"], chain, got), "A:caller-shape"))
+                elif c["nctx"] > 0 and c["nact"] > 0:
+                    dd1 = lambda ts: [t for i, t in enumerate(ts) if t not in ts[:i] and t != ""]
+                    if any(dd1(r["terms"]) != dd1(got) for r in rec):
+                        fails.append(F("A", "%s: the encoder was built from %r, the model's normalise(%s) gives %r" % (c["kind"], rec[0]["terms"], chain, got), "A:caller-shape"))
             req = {"op": "callers", "kind": "synthetic" if syn else "learner", "has_context": has_ctx,
                    "nctx": c.get("nctx", 1), "nact": c.get("nact", 1),
                    "features": [{"t": t} if isinstance(t, str) else {"n": t["n"]} for t in c["features"]]}
@@ -1514,6 +1673,12 @@ class C20(Property):
         return itertools.islice(self.shrink_all(case), 160)
 
     def shrink_all(self, case):
+        if "floatmul" in case:
+            xs = case["floatmul"]
+            for i in range(len(xs)):
+                if len(xs) > 2:
+                    yield {"floatmul": xs[:i] + xs[i + 1:]}
+            return
         if "caller" in case:
             c = case["caller"]
             if c.get("features") is None:
@@ -1593,6 +1758,9 @@ class C20(Property):
     def snippet(self, case):
         if case is None:
             return ""
+        if "floatmul" in case:
+            return ("from fractions import Fraction\nxs = %r\nacc = xs[0]\nfor y in xs[1:]:\n    e = Fraction(acc) * Fraction(y); g = acc * y\n"
+                    "    print(acc, y, g, abs(Fraction(g) - e) <= abs(e) / 2**53); acc = g\n" % [a / b for a, b in case["floatmul"]])
         if "caller" in case:
             c = case["caller"]
             if c.get("features") is None:
